@@ -400,6 +400,25 @@ class Summariser:
                 self.heap_logs.append((p.cond, e))
             for name, v in p.env.items():
                 if name in ph_a and isinstance(env0[name], LArr):
+                    # the summary of a local array is cell by cell over ITS length: an iteration that rebinds the name to an array
+                    # of another length (e.g. broadcasting a one-element array against a column) is outside it
+                    n_in, n_out = env0[name].n, getattr(v, "n", None)
+                    same = (n_out is not None) and ((concrete_int(n_in) is not None and concrete_int(n_in) == concrete_int(n_out)) or (is_z3(n_in) and is_z3(n_out) and to_z3num(n_in).eq(to_z3num(n_out))) or n_in is n_out)
+                    if not same and concrete_int(n_in) == 1 and n_out is not None:
+                        # x = np.array([c]); for ...: x = x + column.  numpy broadcasts the one-element array against the column in
+                        # the first iteration; for an empty sequence the loop does nothing.  Treat x as the broadcast array.
+                        if not it.branch(self.n > 0):
+                            return
+                        ln = n_out
+                        if is_z3(ln):
+                            ln = simp(z3.substitute(to_z3num(ln), (k, z3.IntVal(0))))
+                            it.register_index(z3.IntVal(0))
+                        first = env0[name].get(0)
+                        it.assumptions_log.add("one-element array accumulator broadcast to the summand's length (for an empty sequence numpy keeps the one-element array; equivalent under broadcasting at the use sites)")
+                        self.env[name] = LArr(ln, lambda i, first=first: first)
+                        return self.run()
+                    if not same:
+                        raise Unsupported("local array %s changes its length inside the loop at line %d" % (name, self.line))
                     self.larr_final.setdefault(name, []).append((p.cond, v.get))
         self.k0 = k
         self.ph = ph_a
